@@ -125,7 +125,12 @@ class _CheckingJacobian(DictionaryJacobian):
         super().__init__(system)
 
     def _setup(self, system):
-        self._subjacs_info = self._subjacs_info.copy()
+        # use our own copy of each subjac's metadata so that the sparsity audit results
+        # ('uncovered_nz') of this check neither accumulate over multiple steps / calls nor leak
+        # into the system's own subjacs_info.
+        stale = ('uncovered_nz', 'uncovered_threshold', 'directional')
+        self._subjacs_info = {key: {n: v for n, v in meta.items() if n not in stale}
+                              for key, meta in self._subjacs_info.items()}
 
         self._setup_index_maps(system)
         self._subjacs = self._get_subjacs(system)
